@@ -150,7 +150,7 @@ class C05(Prop):
         "history_spec", "history_mode_independent", "history_no_fault", "reread_under_anchor", "step_simulates", "get_prefix", "readLines_eq_specLines", "get_all_in_memory", "stable_ptr_valid_quiet", "open_quiet",
         "stable_ptr_valid_partial", "stable_ptr_valid_fails_at",
         # round 3: the API contract discharged
-        "step_total", "history_total", "history_total_no_fault", "history_total_no_set", "error_only_outside_contract", "contract_implies_callerOk", "callerOk_decidable", "spec_bracket",
+        "step_total", "history_total", "history_total_no_fault", "history_total_no_set", "error_only_outside_contract", "contract_implies_callerOk", "callerOk_decidable", "spec_bracket", "history_memory_exact", "history_memory_mode_independent",
         "unsafe_set_beyond_window", "fixed_setoffset_beyond_end_in_memory", "fixed_anchor_ahead_of_cursor", "fixed_rewind_before_anchor",
         "stable_ptr_valid_iff", "plain_anchor_no_promise")]
     claimed = True
